@@ -24,7 +24,11 @@ for pid in ids:
             "design_ref": "DESIGN.md section 5, %s" % pid,
         },
         "level_note": P.get("level_note", "Trusted: TLC 1.8.0, the pure-TLA+ BigInt carrier (self-checked by MC_BigInt), the harness projection (raw to_parts/bits/code points of what the real API returned). At the real constants inputs are sampled (TLC-generated landmark grids + seeded random), exhaustive only on the scaled model."),
-        "technique": P.get("technique", "explicit TLA+ specification; TLC exhaustive on the scaled model (L1) + TLC trace validation of recorded calls of the real code at the real constants (L3)"),
+        "technique": P.get("technique", "explicit TLA+ specification; TLC exhaustive on the scaled model (L1)"
+                           + ("; Apalache, real constants, all inputs, for the linear kernels and the implementation-shaped transcription (L1')" if P.get("apalache") else "")
+                           + ("; TLAPS proofs of the underlying lemmas for all integers (thorough tier)" if P.get("tlaps") else "")
+                           + ("; TLC-generated behaviours of the scaled machine replayed in the real code (L2)" if P.get("l2") else "")
+                           + "; TLC trace validation of recorded calls of the real code at the real constants (L3, the alarm source)"),
     })
 na = [{"property_id": p, "reason": NOT_APPLICABLE.get(p, "check not built yet (work in progress; DESIGN.md section 11)")} for p in ids if p not in PROPS]
 m = {
